@@ -873,3 +873,21 @@ M("r27-goto-valid-flush-after-callback-benign", ["C07", "C12"], "benign",
    ("yaep.c", "				toks[stop].attr);\n		  continue;", "				toks[stop].attr);\n#ifdef USE_SET_HASH_TABLE\n		  empty_hash_table (set_term_lookahead_tab);\n#endif\n		  continue;")])
 M("r27-goto-valid-flush-other-table", ["C07", "C12"], "break",
   [("yaep.c", "		  empty_hash_table (set_term_lookahead_tab);\n", "		  empty_hash_table (set_dists_tab);\n")], "R27-goto-valid")
+M("r27-hash-same-element-every-round", ["C18"], "break",
+  [("yaep.c", "  while (dist_ptr < dist_bound)\n    result = result * hash_shift + *dist_ptr++;\n  set->dists_hash = result;", "  while (dist_ptr < dist_bound)\n    {\n      result = result * hash_shift + *set->dists;\n      dist_ptr++;\n    }\n  set->dists_hash = result;")], "R27-hash")
+M("r27-hash-indexed-loop-benign", ["C18"], "benign",
+  [("yaep.c", "  while (dist_ptr < dist_bound)\n    result = result * hash_shift + *dist_ptr++;\n  set->dists_hash = result;", "  {\n    int k;\n\n    for (k = 0; k < n_dists; k++)\n      result = result * hash_shift + dist_ptr[k];\n  }\n  set->dists_hash = result;")])
+M("r27-hash-goto-key-core-only", ["C18"], "break",
+  [("yaep.c", "  return ((set_core_dists_hash (set) * hash_shift\n	   + term->u.term.term_num) * hash_shift + lookahead);", "  return ((set_core_hash (set) * hash_shift\n	   + term->u.term.term_num) * hash_shift + lookahead);")], "R27-hash")
+M("r27-hash-goto-key-by-pointer-benign", ["C18"], "benign",
+  [("yaep.c", "  return ((set_core_dists_hash (set) * hash_shift\n	   + term->u.term.term_num) * hash_shift + lookahead);", "  return (((unsigned) ((size_t) set >> 4) * hash_shift\n	   + term->u.term.term_num) * hash_shift + lookahead);")])
+M("r27-growth-expand-at-half", ["C18"], "break",
+  [("hashtab.c", "  if (htab->size / 4 <= htab->number_of_elements / 3)", "  if (htab->size / 2 <= htab->number_of_elements)")], "R27-growth")
+M("r27-growth-expand-at-two-thirds-benign", ["C18"], "benign",
+  [("hashtab.c", "  if (htab->size / 4 <= htab->number_of_elements / 3)", "  if (htab->size / 3 <= htab->number_of_elements / 2)")])
+M("r4j-init-from-requested-row", ["C12", "C09"], "break",
+  [("yaep.c", "      context_sit_table_ptr = sit_table + context;\n      ptr = bound - diff / sizeof (struct sit **);", "      ptr = context_sit_table_ptr = sit_table + context;")], "R4j")
+M("r4j-init-from-byte-offset-benign", ["C12", "C09"], "benign",
+  [("yaep.c", "      ptr = bound - diff / sizeof (struct sit **);", "      ptr = (struct sit ***) ((char *) bound - diff);")])
+M("r26-cxx-table-with-other-functions", ["C16"], "break",
+  [("yaep.c", "	new hash_table (grammar->alloc, toks_len * 4, reserv_mem_hash,\n			reserv_mem_eq);", "	new hash_table (grammar->alloc, toks_len * 4, trans_visit_node_hash,\n			trans_visit_node_eq);")], "R26")
